@@ -24,6 +24,9 @@ type MSpec struct {
 	NameLen int    `json:"nameLen"`
 	Tags    pbt.M  `json:"tags,omitempty"`
 	NBounds int    `json:"nbounds,omitempty"` // histograms: number of bounds
+	// Twin > 0: this metric has the SAME name and tags as metric Twin-1 (allocated earlier) but another
+	// kind - identities that differ only in kind must still be sized (and delivered) on their own
+	Twin int `json:"twin,omitempty"`
 }
 
 type SOp struct {
@@ -87,7 +90,19 @@ func gen(t *rapid.T) Case {
 		if ms.Kind == "vhist" || ms.Kind == "dhist" {
 			ms.NBounds = rapid.IntRange(0, 12).Draw(t, "nbounds")
 		}
+		if len(c.Metrics) > 0 && ms.Kind != "vhist" && ms.Kind != "dhist" && rapid.IntRange(0, 2).Draw(t, "twin?") == 0 {
+			tw := rapid.IntRange(0, len(c.Metrics)-1).Draw(t, "twin")
+			if k := c.Metrics[tw].Kind; k != ms.Kind && k != "vhist" && k != "dhist" && c.Metrics[tw].Twin == 0 {
+				ms.Twin, ms.NameLen, ms.Tags = tw+1, c.Metrics[tw].NameLen, c.Metrics[tw].Tags
+			}
+		}
 		c.Metrics = append(c.Metrics, ms)
+	}
+	if c.Strategy == "burst" && (c.Metrics[0].Kind == "counter" || c.Metrics[0].Kind == "timer") && rapid.Bool().Draw(t, "gaugeTwinFirst") {
+		// a gauge with the same name and tags is allocated BEFORE the metric the burst is made of
+		main := c.Metrics[0]
+		main.Twin = 1
+		c.Metrics = []MSpec{{Kind: "gauge", NameLen: main.NameLen, Tags: main.Tags}, main}
 	}
 	val := func(op *SOp) {
 		switch rapid.IntRange(0, 3).Draw(t, "vk") {
@@ -102,14 +117,14 @@ func gen(t *rapid.T) Case {
 		}
 	}
 	if c.Strategy == "burst" {
-		op := SOp{M: 0, B: rapid.IntRange(0, 12).Draw(t, "b")}
+		op := SOp{M: len(c.Metrics) - 1, B: rapid.IntRange(0, 12).Draw(t, "b")}
 		val(&op)
 		op.Rep = -1 // sized in run(): until at least three packets are full
 		c.Stream = append(c.Stream, op)
 	} else {
 		n := rapid.IntRange(1, 40).Draw(t, "nops")
 		for i := 0; i < n; i++ {
-			op := SOp{M: rapid.IntRange(0, nm-1).Draw(t, "m"), B: rapid.IntRange(0, 12).Draw(t, "b")}
+			op := SOp{M: rapid.IntRange(0, len(c.Metrics)-1).Draw(t, "m"), B: rapid.IntRange(0, 12).Draw(t, "b")}
 			val(&op)
 			op.Flush = rapid.IntRange(0, 7).Draw(t, "flush") == 0
 			op.Rep = rapid.SampledFrom([]int{0, 0, 0, 1, 5, 30}).Draw(t, "rep")
@@ -117,6 +132,14 @@ func gen(t *rapid.T) Case {
 		}
 	}
 	return c
+}
+
+// nameIndex is the index whose name a metric carries (its twin's, if it has one).
+func nameIndex(ms []MSpec, i int) int {
+	if ms[i].Twin > 0 && ms[i].Twin-1 < i {
+		return ms[i].Twin - 1
+	}
+	return i
 }
 
 func metricName(i, n int) string {
@@ -174,7 +197,7 @@ func run(c Case) (pbt.Outcome, error) {
 		if ms.Kind == "vhist" || ms.Kind == "dhist" {
 			tags = append(tags, bucketTags...)
 		}
-		if s := m3h.MessageSize(c.Binary, math.MaxInt32, m3thrift.MetricBatch{CommonTags: common, Metrics: []m3thrift.Metric{worst(metricName(i, ms.NameLen), tags, ms.Kind)}}); s > L {
+		if s := m3h.MessageSize(c.Binary, math.MaxInt32, m3thrift.MetricBatch{CommonTags: common, Metrics: []m3thrift.Metric{worst(metricName(nameIndex(c.Metrics, i), ms.NameLen), tags, ms.Kind)}}); s > L {
 			L = s
 		}
 	}
@@ -268,7 +291,7 @@ func run(c Case) (pbt.Outcome, error) {
 	}
 	hs := make([]handle, len(c.Metrics))
 	for i, ms := range c.Metrics {
-		name := metricName(i, ms.NameLen)
+		name := metricName(nameIndex(c.Metrics, i), ms.NameLen)
 		tags := ms.Tags.Std()
 		switch ms.Kind {
 		case "counter":
@@ -310,7 +333,7 @@ func run(c Case) (pbt.Outcome, error) {
 	histOps := 0
 	report := func(op SOp) {
 		ms := c.Metrics[op.M]
-		name := metricName(op.M, ms.NameLen)
+		name := metricName(nameIndex(c.Metrics, op.M), ms.NameLen)
 		exp := m3thrift.Metric{Name: name, Tags: mtags(ms.Tags), Value: m3thrift.MetricValue{MetricType: kindOf(ms.Kind)}}
 		switch ms.Kind {
 		case "counter":
@@ -336,7 +359,7 @@ func run(c Case) (pbt.Outcome, error) {
 		reps := op.Rep
 		if reps < 0 {
 			// burst: enough to fill at least three packets
-			per := m3h.MetricSize(c.Binary, worst(metricName(op.M, c.Metrics[op.M].NameLen), mtags(c.Metrics[op.M].Tags), c.Metrics[op.M].Kind))
+			per := m3h.MetricSize(c.Binary, worst(metricName(nameIndex(c.Metrics, op.M), c.Metrics[op.M].NameLen), mtags(c.Metrics[op.M].Tags), c.Metrics[op.M].Kind))
 			reps = 3*maxPacket/per + 3
 			if reps > 4000 {
 				reps = 4000
@@ -442,7 +465,7 @@ func run(c Case) (pbt.Outcome, error) {
 func TestC12(t *testing.T) {
 	pbt.Main(t, pbt.Prop[Case]{
 		ID: "C12", Name: "size",
-		Rule: "rapid-generated M3 reporter configurations (Compact/Binary, 0..8 common tags, queue size 1..4096, MaxPacketSizeBytes = the smallest size at which the largest single metric still fits on its own (computed with the real encoder at worst-case values and sequence id) plus slack 0..300, or the 1440 default, or up to 65000; reporter pre-aged by 0/130/17000 batches so that the sequence id varint grows) and metric streams: 'mixed' (1..5 metrics of all kinds, names 1..600 bytes, 0..8 tags, extreme values, histogram buckets, flushes at random positions, repeats) or 'burst' (one template repeated until at least three packets are full). Real loopback UDP sink. Deciding oracle: every datagram <= MaxPacketSizeBytes and decodes as one message; concatenation of decoded (non-internal) metrics over datagrams == the reported sequence. Diagnostic only: charged vs encoded size per metric via the verif observation hooks. Non-trivial: >=2 datagrams and one within 64 bytes of the limit. Distinct: FNV-64 of the case JSON.",
+		Rule: "rapid-generated M3 reporter configurations (Compact/Binary, 0..8 common tags, queue size 1..4096, MaxPacketSizeBytes = the smallest size at which the largest single metric still fits on its own (computed with the real encoder at worst-case values and sequence id) plus slack 0..300, or the 1440 default, or up to 65000; reporter pre-aged by 0/130/17000 batches so that the sequence id varint grows) and metric streams: 'mixed' (1..5 metrics of all kinds, names 1..600 bytes, 0..8 tags, extreme values, histogram buckets, flushes at random positions, repeats) or 'burst' (one template repeated until at least three packets are full; optionally a gauge with the same name and tags allocated first); metrics may be 'twins' (same name and tags, different kind). Real loopback UDP sink. Deciding oracle: every datagram <= MaxPacketSizeBytes and decodes as one message; concatenation of decoded (non-internal) metrics over datagrams == the reported sequence. Diagnostic only: charged vs encoded size per metric via the verif observation hooks. Non-trivial: >=2 datagrams and one within 64 bytes of the limit. Distinct: FNV-64 of the case JSON.",
 		Gen:  gen, Run: run, HangAfter: 300 * time.Second,
 	})
 }
